@@ -93,6 +93,7 @@ def run(chk, repo, tier):
     check_h2(chk, O11, repo, spairs)
     run_o12_o13(chk, repo)
     run_o14(chk, repo)
+    run_o15(chk, repo)
     from rules.C10 import run_d1
     run_d1(chk, repo, chk.rule('D1', 'symbol accessors (free_symbols, subs) cover every expression field through the matching '
                                      'accessor', floor=10))
@@ -808,3 +809,74 @@ def run_o14(chk, repo):
                           f'eqs pair an amount with the wrong input / matrix row', line=cs.methods[name].node.lineno,
                           witness='first order absorption + zero order input into CENTRAL: the input lands in dA_DEPOT/dt, '
                                   'solve_ode_system solves another system')
+
+
+def run_o15(chk, repo):
+    """O15: to_compartmental_system recovers a flow between two compartments from a term of the equations; the equations
+    generated back from the system contain rate * amount, so the recovered rate must satisfy rate * A(t) == term for EVERY term,
+    also a saturable one (VM*A/(KM + A)): rate = term / A(t). The flow expressions given to add_flow in the between-compartment
+    branch are checked as algebra over the symbols term, comp_func, current_flow"""
+    import sympy
+    from sa import tables as T_
+    from sa import reach
+    from sa.cfg import CFG
+    O15 = chk.rule('O15', 'to_compartmental_system: the rate of a flow recovered between two compartments is term / amount '
+                          '(algebraically: rate * amount == term, plus the flow already present)', floor=2)
+    sm = repo.module('pharmpy.model.statements')
+    f = sm.functions.get('to_compartmental_system')
+    if f is None:
+        raise AnalysisError('O15: to_compartmental_system not found')
+    cfg = CFG(f.node)
+    INEXACT = {'as_independent', 'coeff', 'as_coefficient', 'as_coeff_Mul', 'as_coeff_mul', 'diff', 'as_coefficients_dict'}
+    n = 0
+    for nd in cfg.nodes.values():
+        if nd.ast is None or nd.kind != 'stmt':
+            continue
+        for c in [c for c in ast.walk(nd.ast) if isinstance(c, ast.Call) and isinstance(c.func, ast.Attribute)
+                  and c.func.attr == 'add_flow' and len(c.args) == 3]:
+            if not (isinstance(c.args[0], ast.Name) and 'from' in c.args[0].id and isinstance(c.args[1], ast.Name)
+                    and 'to' in c.args[1].id):
+                continue
+            try:
+                e = reach.expand_expr(cfg, nd.id, c.args[2], depth=3)
+            except TypeError:
+                e = reach.expand_expr(cfg, nd.id, c.args[2])
+            txt = unparse(e)
+            if 'term' not in txt:
+                continue
+            n += 1
+            bad_call = next((x for x in ast.walk(e) if isinstance(x, ast.Call) and isinstance(x.func, ast.Attribute)
+                             and x.func.attr in INEXACT), None)
+            if bad_call is not None:
+                chk.instance(O15, f'add_flow(.., {txt[:60]}): exact: False')
+                chk.violation(O15, sm.rel, f.qualname, f'add_flow(.., {txt[:80]})',
+                              f'`.{bad_call.func.attr}(..)` picks out a factor / coefficient of the term: that equals term / amount '
+                              f'only for a term that is linear in the amount', line=c.lineno,
+                              witness='dA1/dt = -VM*A1/(KM + A1), dA2/dt = VM*A1/(KM + A1) - K*A2: the recovered flow A1 -> A2 is '
+                                      'VM, and the equations of the recovered system differ from the input')
+                continue
+            env = {k: sympy.Symbol(k) for k in ('term', 'comp_func', 'current_flow')}
+
+            class _Flow(ast.NodeTransformer):
+                def visit_Call(self, c_):
+                    if isinstance(c_.func, ast.Attribute) and c_.func.attr == 'get_flow':
+                        return ast.Name(id='current_flow', ctx=ast.Load())
+                    return self.generic_visit(c_)
+            import copy as _copy
+            e = _Flow().visit(_copy.deepcopy(e))
+            try:
+                rate = T_.to_sympy(e, env)
+            except AnalysisError as ex:
+                raise AnalysisError(f'O15: flow expression `{txt[:60]}` is not Expr arithmetic over term / comp_func / '
+                                    f'current_flow ({ex})')
+            d1 = sympy.simplify(rate * env['comp_func'] - env['term'])
+            d2 = sympy.simplify((rate - env['current_flow']) * env['comp_func'] - env['term'])
+            ok = d1 == 0 or d2 == 0
+            chk.instance(O15, f'add_flow(.., {txt[:60]}): rate * amount == term: {ok}')
+            if not ok:
+                chk.violation(O15, sm.rel, f.qualname, f'add_flow(.., {txt[:80]})',
+                              'the flow given to the builder, times the amount of the source compartment, is not the term it was '
+                              'recovered from', line=c.lineno,
+                              witness='any two-compartment system: eqs(to_compartmental_system(eqs)) != eqs')
+    if n < 2:
+        raise AnalysisError(f'O15: only {n} recovered between-compartment flows found')
